@@ -59,9 +59,14 @@ def run_miri(reqs, nseeds=1, timeout=3000, tag="m"):
     try:
         p = subprocess.run(["cargo", "+nightly", "miri", "run", "--offline", "--target-dir", os.path.join(BUILD, "harness-miri" + build.SUFFIX), "--", path],
                            cwd=os.path.join(VERIF, "harness"), env=env, stdout=subprocess.PIPE, stderr=subprocess.PIPE, timeout=timeout, stdin=subprocess.DEVNULL)
-    except subprocess.TimeoutExpired:
+    except subprocess.TimeoutExpired as e:
         subprocess.run(["pkill", "-f", path])
-        return {"inconclusive": "miri timed out after %ds" % timeout}
+        # keep what the interpreter had finished (the harness prints one line per request as it goes)
+        class P: pass
+        p = P(); p.stdout = e.stdout or b""; p.stderr = e.stderr or b""; p.returncode = None
+        timed_out = True
+    else:
+        timed_out = False
     err = p.stderr.decode("utf-8", "replace")
     lines = []
     for l in p.stdout.split(b"\n"):
@@ -72,11 +77,16 @@ def run_miri(reqs, nseeds=1, timeout=3000, tag="m"):
                 pass
     ub = err.count("Undefined Behavior") + err.count("Data race detected")
     if not lines and ub == 0:
+        if timed_out:
+            return {"inconclusive": "miri timed out after %ds with no result" % timeout}
         return {"inconclusive": "miri produced no results (rc %s): %s" % (p.returncode, err[-400:])}
+    if timed_out:
+        return {"lines": lines, "ub_reports": ub, "stderr_tail": err[-1500:], "wall_s": round(time.time() - t0, 1), "rc": None,
+                "partial": "miri shard stopped at the %ds budget after %d of %d requests" % (timeout, len(lines), len(reqs))}
     return {"lines": lines, "ub_reports": ub, "stderr_tail": err[-1500:], "wall_s": round(time.time() - t0, 1), "rc": p.returncode}
 
 
-def miri_pass(total, reqs, label, prop, expect=None, shards=8):
+def miri_pass(total, reqs, label, prop, expect=None, shards=NCPU):
     """Run requests under Miri in `shards` parallel processes. expect: optional list of native results to compare with."""
     t0 = time.time()
     chunks = [reqs[i::shards] for i in range(shards)]
@@ -88,8 +98,8 @@ def miri_pass(total, reqs, label, prop, expect=None, shards=8):
         return run_miri([dict(r) for r in chunks[k]], 1, tag="%s%d" % (label, k), timeout=1500)
     with ThreadPoolExecutor(max_workers=shards) as ex:
         res = list(ex.map(one, range(shards)))
-    inconc = [r["inconclusive"] for r in res if "inconclusive" in r]
-    if len(inconc) == shards:
+    inconc = [r["inconclusive"] for r in res if "inconclusive" in r] + [r["partial"] for r in res if "partial" in r]
+    if all("inconclusive" in r for r in res):
         return {"inconclusive": inconc[0]}
     ub = sum(r.get("ub_reports", 0) for r in res)
     observed = differing = 0
